@@ -1,6 +1,10 @@
 package main
 
-import "fmt"
+import (
+	"fmt"
+
+	"golang.org/x/net/idna"
+)
 
 // vndCall implements the engine side of the nondet package internal/vnd.
 func (m *Machine) vndCall(name string, args []Value, caller *frame) Value {
@@ -163,6 +167,15 @@ func (m *Machine) vndCall(name string, args []Value, caller *frame) Value {
 		m.watchEpoch = m.epoch
 		return nil
 	case "DomainToASCII":
+		// concrete input: the real UTS-46 processing (the same profile options as vnd.go's native
+		// implementation); symbolic input is outside the bound
+		if cs, ok := args[0].(StrV).concrete(); ok {
+			a, err := modelIdnaProfile.ToASCII(cs)
+			if err != nil || a == "" {
+				return TupleV{m.strConst(""), st.False}
+			}
+			return TupleV{m.strConst(a), st.True}
+		}
 		m.stats.outsideIDNA++
 		panic(&pathEnd{endOutside, "IDNA: model asked for real UTS-46 processing"})
 	}
@@ -171,6 +184,18 @@ func (m *Machine) vndCall(name string, args []Value, caller *frame) Value {
 }
 
 var paramOverride = map[string]int{}
+
+// modelIdnaProfile: exactly vnd.go's idnaProfile (the standard's domain-to-ASCII with beStrict=false).
+var modelIdnaProfile = idna.New(
+	idna.MapForLookup(),
+	idna.BidiRule(),
+	idna.VerifyDNSLength(false),
+	idna.StrictDomainName(false),
+	idna.ValidateLabels(true),
+	idna.CheckHyphens(false),
+	idna.CheckJoiners(true),
+	idna.Transitional(false),
+)
 
 func (m *Machine) coveredAlready(name string) bool {
 	for _, c := range m.covers {
